@@ -70,18 +70,18 @@ type UnsafePtr struct{ V Value }
 
 // RangeIter is the state of a Range instruction.
 type RangeIter struct {
-	m    *MapV
-	idxs []int
-	pos  int
-	str  View
-	off  *T
+	m     *MapV
+	idxs  []int
+	pos   int
+	str   View
+	off   *T
 	isStr bool
 }
 
 // control-flow panics of the interpreter
-type pathEnd struct{ why string }      // path is over (not an error)
-type unsupported struct{ why string }  // path is inconclusive
-type goPanic struct {                   // a Go panic travelling up the interpreted stack
+type pathEnd struct{ why string }     // path is over (not an error)
+type unsupported struct{ why string } // path is inconclusive
+type goPanic struct {                 // a Go panic travelling up the interpreted stack
 	val   Value
 	site  string
 	msg   string
